@@ -2,6 +2,7 @@
 
 from typing import Optional
 
+import torch
 from linear_operator import to_linear_operator
 from linear_operator.operators import KroneckerProductLinearOperator
 
@@ -47,8 +48,10 @@ class MultitaskKernel(Kernel):
         if last_dim_is_batch:
             raise RuntimeError("MultitaskKernel does not accept the last_dim_is_batch argument.")
         covar_i = self.task_covar_module.covar_matrix
-        if len(x1.shape[:-2]):
-            covar_i = covar_i.repeat(*x1.shape[:-2], 1, 1)
+        # Broadcast the task covariance against the inputs' batch shape (it may carry a batch shape of its own)
+        batch_shape = torch.broadcast_shapes(x1.shape[:-2], covar_i.shape[:-2])
+        if batch_shape != covar_i.shape[:-2]:
+            covar_i = covar_i.expand(*batch_shape, *covar_i.shape[-2:])
         covar_x = to_linear_operator(self.data_covar_module.forward(x1, x2, **params))
         res = KroneckerProductLinearOperator(covar_x, covar_i)
         return res.diagonal(dim1=-1, dim2=-2) if diag else res
